@@ -157,3 +157,196 @@ Proof.
     rewrite dec_entry_tail by (rewrite !app_length, Lpb, !le32_length; lia).
     exact (IH (ovf ++ extra) rest ovf' E F' Ho (fun e' He' => Hc e' (or_intror He')) i e Hi).
 Qed.
+
+(** * the whole file *)
+Lemma skipn_app_exact {A} (l r : list A) n : length l = n -> skipn n (l ++ r) = r.
+Proof. intros <-. rewrite skipn_app, skipn_all, Nat.sub_diag. reflexivity. Qed.
+
+Lemma firstn_app_exact {A} (l r : list A) n : length l = n -> firstn n (l ++ r) = l.
+Proof. intros <-. rewrite firstn_app, firstn_all, Nat.sub_diag. simpl. apply app_nil_r. Qed.
+
+Lemma flat_le32_length l : length (flat_map le32 l) = (4 * length l)%nat.
+Proof. induction l as [|x l IH]; [reflexivity|]. cbn [flat_map length]. rewrite app_length, IH, le32_length. lia. Qed.
+
+Lemma rd32_flat_le32 (l : list N) (rest : list N) j : (j < length l)%nat ->
+  (forall x, In x l -> x <= U32MAX) ->
+  rd32 (flat_map le32 l ++ rest) (j * 4) = nth j l 0.
+Proof.
+  revert j. induction l as [|x l IH]; intros j Lj B; [simpl in Lj; lia|].
+  destruct j as [|j].
+  - unfold rd32. cbn [Nat.mul skipn flat_map]. rewrite <- app_assoc, de32_app, de32_le32; [reflexivity|].
+    apply B. now left.
+  - unfold rd32 in *. cbn [flat_map]. rewrite <- app_assoc.
+    replace (S j * 4)%nat with (4 + j * 4)%nat by lia. rewrite skipn_add, skipn4_le32.
+    simpl in Lj. cbn [nth]. apply IH; [lia|]. intros y Hy. apply B. now right.
+Qed.
+
+Lemma map_seq_nth (l : list N) : map (fun j => nth j l 0) (seq 0 (length l)) = l.
+Proof.
+  induction l as [|x l IH] using rev_ind; [reflexivity|].
+  rewrite app_length. cbn [length]. rewrite Nat.add_1_r, seq_S, map_app. cbn [map Nat.add].
+  rewrite app_nth2 by lia. rewrite Nat.sub_diag. cbn [nth]. f_equal.
+  rewrite <- IH at 2. apply map_ext_in. intros i Hi. apply in_seq in Hi. apply app_nth1. lia.
+Qed.
+
+(** the reader on any byte string laid out the way the writer lays a file out *)
+Lemma decode_file_struct idlen chlen (parent graph A B C : list N) (n nch : nat) (povf covf : list N) :
+  N.of_nat (length parent) <= U32MAX -> N.of_nat n <= U32MAX -> N.of_nat nch <= U32MAX ->
+  N.of_nat (length povf) <= U32MAX -> N.of_nat (length covf) <= U32MAX ->
+  (forall x, In x povf -> x <= U32MAX) ->
+  length graph = (n * (C18_GRAPH_ENTRY_FIXED_SIZE + idlen))%nat ->
+  length A = (n * 4)%nat -> length B = (nch * chlen)%nat -> length C = (nch * 4)%nat ->
+  decode_file idlen chlen
+    (le32 C18_SEGMENT_FORMAT_VERSION ++ le32 (N.of_nat (length parent)) ++ parent ++
+     le32 (N.of_nat n) ++ le32 (N.of_nat nch) ++ le32 (N.of_nat (length povf)) ++
+     le32 (N.of_nat (length covf)) ++
+     graph ++ A ++ B ++ C ++ flat_map le32 povf ++ flat_map le32 covf) =
+  Some (parent,
+        map (fun i => let '(g0, ps, _, id0) :=
+                        dec_entry idlen (graph ++ A ++ B ++ C ++ flat_map le32 povf ++ flat_map le32 covf) povf i
+                      in (g0, ps, id0)) (seq 0 n)).
+Proof.
+  intros Bp Bn Bc Bo Bv Bx Lg La Lb Lc. unfold decode_file.
+  set (tail := graph ++ A ++ B ++ C ++ flat_map le32 povf ++ flat_map le32 covf).
+  set (loc := le32 (N.of_nat n) ++ le32 (N.of_nat nch) ++ le32 (N.of_nat (length povf)) ++
+              le32 (N.of_nat (length covf)) ++ tail).
+  assert (V : rd32 (le32 C18_SEGMENT_FORMAT_VERSION ++ le32 (N.of_nat (length parent)) ++ parent ++ loc) 0
+              = C18_SEGMENT_FORMAT_VERSION).
+  { unfold rd32. cbn [skipn]. rewrite de32_app. apply de32_le32. unfold U32MAX. reflexivity || (cbv; discriminate). }
+  assert (P : rd32 (le32 C18_SEGMENT_FORMAT_VERSION ++ le32 (N.of_nat (length parent)) ++ parent ++ loc) 4
+              = N.of_nat (length parent)).
+  { unfold rd32. rewrite skipn4_le32, de32_app. now apply de32_le32. }
+  fold tail. fold loc. rewrite V, P, Nat2N.id, N.eqb_refl. cbn [negb].
+  assert (S8 : skipn 8 (le32 C18_SEGMENT_FORMAT_VERSION ++ le32 (N.of_nat (length parent)) ++ parent ++ loc)
+               = parent ++ loc).
+  { change 8%nat with (4 + 4)%nat. now rewrite skipn_add, !skipn4_le32. }
+  assert (SL : skipn (8 + length parent)
+                 (le32 C18_SEGMENT_FORMAT_VERSION ++ le32 (N.of_nat (length parent)) ++ parent ++ loc) = loc).
+  { rewrite skipn_add, S8. now apply skipn_app_exact. }
+  rewrite S8, SL, (firstn_app_exact parent loc) by reflexivity.
+  assert (R0 : rd32 loc 0 = N.of_nat n).
+  { unfold rd32, loc. cbn [skipn]. rewrite de32_app. now apply de32_le32. }
+  assert (R4 : rd32 loc 4 = N.of_nat nch).
+  { unfold rd32, loc. rewrite skipn4_le32, de32_app. now apply de32_le32. }
+  assert (R8 : rd32 loc 8 = N.of_nat (length povf)).
+  { unfold rd32, loc. change 8%nat with (4 + 4)%nat. rewrite skipn_add, !skipn4_le32, de32_app. now apply de32_le32. }
+  assert (R12 : rd32 loc 12 = N.of_nat (length covf)).
+  { unfold rd32, loc. change 12%nat with (4 + (4 + 4))%nat. rewrite !skipn_add, !skipn4_le32, de32_app.
+    now apply de32_le32. }
+  assert (S16 : skipn 16 loc = tail).
+  { unfold loc. change 16%nat with (4 + (4 + (4 + 4)))%nat. now rewrite !skipn_add, !skipn4_le32. }
+  rewrite R0, R4, R8, R12, S16, !Nat2N.id.
+  assert (Lt : length tail =
+               (n * (C18_GRAPH_ENTRY_FIXED_SIZE + idlen) + n * 4 + nch * chlen + nch * 4
+                + length povf * 4 + length covf * 4)%nat).
+  { unfold tail. rewrite !app_length, !flat_le32_length, Lg, La, Lb, Lc. lia. }
+  rewrite Lt, Nat.eqb_refl. cbn [negb]. f_equal. f_equal.
+  - (* the overflow table decodes to povf *)
+    apply map_ext_in. intros i Hi. f_equal.
+    assert (E : map (fun j => rd32 tail
+                   (n * (C18_GRAPH_ENTRY_FIXED_SIZE + idlen) + n * 4 + nch * chlen + nch * 4 + j * 4))
+                  (seq 0 (length povf)) = povf).
+    { rewrite <- (map_seq_nth povf) at 2. apply map_ext_in. intros j Hj. apply in_seq in Hj.
+      unfold rd32, tail.
+      replace (n * (C18_GRAPH_ENTRY_FIXED_SIZE + idlen) + n * 4 + nch * chlen + nch * 4 + j * 4)%nat
+        with (length graph + (length A + (length B + (length C + j * 4))))%nat by lia.
+      rewrite !skipn_add. rewrite (skipn_app_exact graph) by reflexivity.
+      rewrite (skipn_app_exact A) by reflexivity. rewrite (skipn_app_exact B) by reflexivity.
+      rewrite (skipn_app_exact C) by reflexivity.
+      apply (rd32_flat_le32 povf (flat_map le32 covf) j); [lia|assumption]. }
+    now rewrite E.
+Qed.
+
+Lemma enc_entries_len chg idlen : forall es ovf graph povf,
+  enc_entries chg es ovf = (graph, povf) -> Forall (fun e => length (ce_id e) = idlen) es ->
+  length graph = (length es * (C18_GRAPH_ENTRY_FIXED_SIZE + idlen))%nat.
+Proof.
+  induction es as [|e es IH]; intros ovf graph povf H F; cbn [enc_entries] in H.
+  - injection H as <- _. reflexivity.
+  - destruct (enc_parents (ce_parents e) (N.of_nat (length ovf))) as [pb extra] eqn:Ep.
+    destruct (enc_entries chg es (ovf ++ extra)) as [rest ovf'] eqn:E.
+    injection H as <- _. inversion F as [|? ? Hid F']; subst.
+    pose proof (enc_parents_len (ce_parents e) (N.of_nat (length ovf))) as Lp. rewrite Ep in Lp. cbn [fst] in Lp.
+    rewrite !app_length, !le32_length, Lp, (IH _ _ _ E F'), entry_size. cbn [length]. lia.
+Qed.
+
+Lemma bytes_eqb_eq a : forall b, bytes_eqb a b = true <-> a = b.
+Proof.
+  unfold bytes_eqb. induction a as [|x a IH]; intros [|y b]; simpl; try (split; [discriminate|discriminate]); [tauto|].
+  rewrite andb_true_iff, N.eqb_eq, IH. split; [intros [-> ->]; reflexivity|].
+  intros E. inversion E. tauto.
+Qed.
+
+Lemma insert_sorted_keys {V} k (v : V) m l x :
+  In x (map fst (insert_sorted k v m l)) <-> x = k \/ In x (map fst l).
+Proof.
+  induction l as [|[k' v'] r IH]; simpl; [intuition|].
+  destruct (bytes_ltb k k'); [simpl; intuition|].
+  destruct (bytes_eqb k k') eqn:E; simpl.
+  - apply bytes_eqb_eq in E. subst k'. intuition.
+  - rewrite IH. intuition.
+Qed.
+
+Lemma insert_sorted_len_new {V} k (v : V) m l :
+  ~ In k (map fst l) -> length (insert_sorted k v m l) = S (length l).
+Proof.
+  induction l as [|[k' v'] r IH]; simpl; intros H; [reflexivity|].
+  destruct (bytes_ltb k k'); [reflexivity|].
+  destruct (bytes_eqb k k') eqn:E.
+  - apply bytes_eqb_eq in E. subst k'. exfalso. apply H. now left.
+  - simpl. f_equal. apply IH. intros C. apply H. now right.
+Qed.
+
+Lemma commit_lookup_len es : NoDup (map ce_id es) -> length (commit_lookup es) = length es.
+Proof.
+  unfold commit_lookup.
+  assert (G : forall es st, NoDup (map ce_id es) ->
+    (forall e, In e es -> ~ In (ce_id e) (map fst (snd st))) ->
+    let r := fold_left (fun st e => (fst st + 1, insert_sorted (ce_id e) (fst st) (fun a _ => a) (snd st))) es st in
+    length (snd r) = (length (snd st) + length es)%nat).
+  { induction es0 as [|e es0 IH]; intros st ND Hn; simpl; [lia|].
+    inversion ND as [|? ? Hne ND']; subst. rewrite IH; [|assumption|].
+    - simpl. rewrite insert_sorted_len_new by (apply Hn; now left). lia.
+    - intros e' He' C. simpl in C. apply insert_sorted_keys in C. destruct C as [C|C].
+      + apply Hne. rewrite <- C. now apply in_map.
+      + apply (Hn e'); [now right|assumption]. }
+  intros ND. rewrite (G es (0, []) ND); [reflexivity|]. intros e _ [].
+Qed.
+
+Lemma change_lookup_keys es k : In k (map fst (change_lookup es)) -> exists e, In e es /\ ce_change e = k.
+Proof.
+  unfold change_lookup.
+  assert (G : forall es st k, In k (map fst (snd (fold_left (fun st e =>
+      (fst st + 1, insert_sorted (ce_change e) [fst st] (@app N) (snd st))) es st))) ->
+      In k (map fst (snd st)) \/ exists e, In e es /\ ce_change e = k).
+  { induction es0 as [|e es0 IH]; intros st k0 H; simpl in H; [now left|].
+    destruct (IH _ _ H) as [C|(e' & He' & E)].
+    - simpl in C. apply insert_sorted_keys in C. destruct C as [->|C]; [right; exists e; split; [now left|reflexivity]|now left].
+    - right. exists e'. split; [now right|assumption]. }
+  intros H. destruct (G es (0, []) k H) as [[]|H']. exact H'.
+Qed.
+
+Lemma flat_fst_len {V} (l : list (list N * V)) chlen :
+  (forall k, In k (map fst l) -> length k = chlen) -> length (flat_map fst l) = (length l * chlen)%nat.
+Proof.
+  induction l as [|[k v] l IH]; intros H; [reflexivity|]. cbn [flat_map length fst].
+  rewrite app_length, IH by (intros k' Hk'; apply H; now right). rewrite (H k) by now left. lia.
+Qed.
+
+Lemma enc_change_pos_len : forall l ovf, length (fst (enc_change_pos l ovf)) = (length l * 4)%nat.
+Proof.
+  induction l as [|[k ps] l IH]; intros ovf; [reflexivity|]. cbn [enc_change_pos].
+  destruct ps as [|p [|q ps]].
+  - specialize (IH (ovf ++ [])). destruct (enc_change_pos l (ovf ++ [])) as [b o]. cbn [fst] in *.
+    rewrite app_length, le32_length, IH. cbn [length]. lia.
+  - specialize (IH ovf). destruct (enc_change_pos l ovf) as [b o]. cbn [fst] in *.
+    rewrite app_length, le32_length, IH. cbn [length]. lia.
+  - specialize (IH (ovf ++ p :: q :: ps)). destruct (enc_change_pos l (ovf ++ p :: q :: ps)) as [b o].
+    cbn [fst] in *. rewrite app_length, le32_length, IH. cbn [length]. lia.
+Qed.
+
+Lemma index_of_le k : forall l i, index_of k l i <= i + N.of_nat (length l).
+Proof.
+  induction l as [|k' l IH]; intros i; cbn [index_of length]; [lia|].
+  destruct (bytes_eqb k k'); [lia|]. specialize (IH (i + 1)). lia.
+Qed.
